@@ -3904,6 +3904,34 @@ fn main() {
             println!("accepted_inside_a_field={}", bad);
             println!("first={}", first);
         }
+        // disk_create_file_modes : on the disk-backed temporary file system: a file of 100 bytes is re-created without the append flag and
+        // 10 bytes are written (it must then hold exactly those 10 bytes); a file of 10 bytes is opened for appending and 5 bytes are
+        // written with write_all (it must then hold the 10 old bytes followed by the 5 new ones)
+        "disk_create_file_modes" => {
+            use raindb::fs::FileSystem;
+            use std::io::Write;
+            let disk = raindb::fs::TmpFileSystem::new(None);
+            let dir = std::path::Path::new("modes");
+            disk.create_dir_all(dir).unwrap();
+            let read_all = |p: &std::path::Path| -> Vec<u8> {
+                let f = disk.open_file(p).unwrap();
+                let mut buf = vec![0u8; f.len().unwrap() as usize];
+                let _ = f.read_from(&mut buf, 0);
+                buf
+            };
+            let p1 = dir.join("truncated");
+            { let mut f = disk.create_file(&p1, false).unwrap(); f.write_all(&[b'o'; 100]).unwrap(); f.flush().unwrap(); }
+            { let mut f = disk.create_file(&p1, false).unwrap(); f.write_all(&[b'n'; 10]).unwrap(); f.flush().unwrap(); }
+            let c1 = read_all(&p1);
+            println!("recreated_len={}", c1.len());
+            println!("recreated_ok={}", c1 == vec![b'n'; 10]);
+            let p2 = dir.join("appended");
+            { let mut f = disk.create_file(&p2, false).unwrap(); f.write_all(&[b'o'; 10]).unwrap(); f.flush().unwrap(); }
+            { let mut f = disk.create_file(&p2, true).unwrap(); f.write_all(&[b'n'; 5]).unwrap(); f.flush().unwrap(); }
+            let c2 = read_all(&p2);
+            println!("appended_len={}", c2.len());
+            println!("appended_ok={}", c2 == [vec![b'o'; 10], vec![b'n'; 5]].concat());
+        }
         // manifest_codec : edits of trivial moves (file n deleted at level L, added at level L + 1) and a mixed edit are encoded
         // and decoded by the real codec
         "manifest_codec" => {
